@@ -209,6 +209,8 @@ def run(tier, replay):
                 bad.append("at the end: len(limiter)=%d, files open=%d" % obs[-1][:2])
             if res.get("stuck"):
                 bad.append("reads never finished: %s" % res["stuck"])
+            if res.get("hung"):
+                bad.append("ending session(s) %s from outside (the connection is gone) did not return within 5 s" % res["hung"])
             if c["mode"] != "tail":
                 cancelled = {s["id"] for s in c["steps"] if s["a"] == "cancel"}
                 for s in c["steps"]:
